@@ -1,0 +1,304 @@
+//! Verification hooks, compiled only with `--cfg orx_concurrent_iter_verif`.
+//!
+//! Drop-in replacements of `std::sync::atomic::{AtomicUsize, AtomicBool}` which report every
+//! atomic access to a thread-local [`Monitor`], if one is installed. The module contains no policy:
+//! without a monitor every method is a plain pass-through to the standard atomics.
+#![allow(missing_docs, clippy::missing_panics_doc)]
+
+use std::cell::Cell;
+use std::fmt;
+use std::sync::atomic::{self as sa, Ordering};
+
+/// Kind of an atomic access.
+#[derive(Clone, Copy, Debug, PartialEq, Eq, Hash)]
+pub enum Kind {
+    Load,
+    Store,
+    /// read-modify-write; a failed compare-exchange is reported as an `Rmw` with `wrote == false`
+    Rmw,
+}
+
+/// Description of one atomic access.
+#[derive(Clone, Copy, Debug)]
+pub struct Access {
+    /// address of the atomic
+    pub addr: usize,
+    pub kind: Kind,
+    /// ordering of the access (success ordering of a compare-exchange)
+    pub order: Ordering,
+    /// failure ordering of a compare-exchange; equal to `order` otherwise
+    pub fail_order: Ordering,
+    /// true for `AtomicBool`, false for `AtomicUsize`
+    pub is_bool: bool,
+}
+
+/// Observer of atomic accesses.
+pub trait Monitor {
+    /// Called before the access is performed; the monitor may switch to another thread of control here.
+    fn before(&self, access: &Access);
+    /// Called right after the access: `old` is the value read (or the previous value of a store),
+    /// `new` is the value of the atomic after the access, `wrote` tells whether a store took place.
+    fn after(&self, access: &Access, old: usize, new: usize, wrote: bool);
+}
+
+thread_local! {
+    static MONITOR: Cell<Option<*const dyn Monitor>> = const { Cell::new(None) };
+}
+
+/// Installs `monitor` for the current OS thread while `f` runs.
+pub fn with_monitor<R>(monitor: &dyn Monitor, f: impl FnOnce() -> R) -> R {
+    struct Reset(Option<*const dyn Monitor>);
+    impl Drop for Reset {
+        fn drop(&mut self) {
+            MONITOR.with(|c| c.set(self.0));
+        }
+    }
+    // SAFETY: the pointer is removed again before `monitor` can go out of scope
+    let ptr: *const dyn Monitor =
+        unsafe { std::mem::transmute::<&dyn Monitor, &'static dyn Monitor>(monitor) };
+    let _reset = Reset(MONITOR.with(|c| c.replace(Some(ptr))));
+    f()
+}
+
+/// Removes the monitor of the current OS thread while `f` runs.
+pub fn without_monitor<R>(f: impl FnOnce() -> R) -> R {
+    struct Reset(Option<*const dyn Monitor>);
+    impl Drop for Reset {
+        fn drop(&mut self) {
+            MONITOR.with(|c| c.set(self.0));
+        }
+    }
+    let _reset = Reset(MONITOR.with(|c| c.replace(None)));
+    f()
+}
+
+#[inline]
+fn monitor() -> Option<&'static dyn Monitor> {
+    // SAFETY: see `with_monitor`
+    MONITOR.with(|c| c.get()).map(|p| unsafe { &*p })
+}
+
+macro_rules! shim_common {
+    ($name:ident, $std:ty, $val:ty, $is_bool:expr, $to:expr) => {
+        impl $name {
+            #[inline]
+            fn access(&self, kind: Kind, order: Ordering, fail_order: Ordering) -> Access {
+                Access {
+                    addr: self as *const Self as usize,
+                    kind,
+                    order,
+                    fail_order,
+                    is_bool: $is_bool,
+                }
+            }
+
+            pub const fn new(v: $val) -> Self {
+                Self(<$std>::new(v))
+            }
+
+            pub fn get_mut(&mut self) -> &mut $val {
+                self.0.get_mut()
+            }
+
+            pub fn into_inner(self) -> $val {
+                self.0.into_inner()
+            }
+
+            pub fn as_ptr(&self) -> *mut $val {
+                self.0.as_ptr()
+            }
+
+            #[inline]
+            pub fn load(&self, order: Ordering) -> $val {
+                match monitor() {
+                    None => self.0.load(order),
+                    Some(m) => {
+                        let a = self.access(Kind::Load, order, order);
+                        m.before(&a);
+                        let v = self.0.load(order);
+                        m.after(&a, $to(v), $to(v), false);
+                        v
+                    }
+                }
+            }
+
+            #[inline]
+            pub fn store(&self, val: $val, order: Ordering) {
+                match monitor() {
+                    None => self.0.store(val, order),
+                    Some(m) => {
+                        let a = self.access(Kind::Store, order, order);
+                        m.before(&a);
+                        let old = self.0.load(Ordering::Relaxed);
+                        self.0.store(val, order);
+                        m.after(&a, $to(old), $to(val), true);
+                    }
+                }
+            }
+
+            #[inline]
+            fn rmw(&self, order: Ordering, f: impl FnOnce(&$std) -> $val) -> $val {
+                match monitor() {
+                    None => f(&self.0),
+                    Some(m) => {
+                        let a = self.access(Kind::Rmw, order, order);
+                        m.before(&a);
+                        let old = f(&self.0);
+                        let new = self.0.load(Ordering::Relaxed);
+                        m.after(&a, $to(old), $to(new), true);
+                        old
+                    }
+                }
+            }
+
+            #[inline]
+            pub fn swap(&self, val: $val, order: Ordering) -> $val {
+                self.rmw(order, |x| x.swap(val, order))
+            }
+
+            #[inline]
+            pub fn compare_exchange(
+                &self,
+                current: $val,
+                new: $val,
+                success: Ordering,
+                failure: Ordering,
+            ) -> Result<$val, $val> {
+                match monitor() {
+                    None => self.0.compare_exchange(current, new, success, failure),
+                    Some(m) => {
+                        let a = self.access(Kind::Rmw, success, failure);
+                        m.before(&a);
+                        let r = self.0.compare_exchange(current, new, success, failure);
+                        match r {
+                            Ok(old) => m.after(&a, $to(old), $to(new), true),
+                            Err(old) => m.after(&a, $to(old), $to(old), false),
+                        }
+                        r
+                    }
+                }
+            }
+
+            /// Never fails spuriously under a monitor, so that monitored executions are deterministic.
+            #[inline]
+            pub fn compare_exchange_weak(
+                &self,
+                current: $val,
+                new: $val,
+                success: Ordering,
+                failure: Ordering,
+            ) -> Result<$val, $val> {
+                match monitor() {
+                    None => self
+                        .0
+                        .compare_exchange_weak(current, new, success, failure),
+                    Some(_) => self.compare_exchange(current, new, success, failure),
+                }
+            }
+
+            pub fn fetch_update<F>(
+                &self,
+                set_order: Ordering,
+                fetch_order: Ordering,
+                mut f: F,
+            ) -> Result<$val, $val>
+            where
+                F: FnMut($val) -> Option<$val>,
+            {
+                let mut prev = self.load(fetch_order);
+                while let Some(next) = f(prev) {
+                    match self.compare_exchange_weak(prev, next, set_order, fetch_order) {
+                        x @ Ok(_) => return x,
+                        Err(next_prev) => prev = next_prev,
+                    }
+                }
+                Err(prev)
+            }
+
+            #[inline]
+            pub fn fetch_and(&self, val: $val, order: Ordering) -> $val {
+                self.rmw(order, |x| x.fetch_and(val, order))
+            }
+
+            #[inline]
+            pub fn fetch_nand(&self, val: $val, order: Ordering) -> $val {
+                self.rmw(order, |x| x.fetch_nand(val, order))
+            }
+
+            #[inline]
+            pub fn fetch_or(&self, val: $val, order: Ordering) -> $val {
+                self.rmw(order, |x| x.fetch_or(val, order))
+            }
+
+            #[inline]
+            pub fn fetch_xor(&self, val: $val, order: Ordering) -> $val {
+                self.rmw(order, |x| x.fetch_xor(val, order))
+            }
+        }
+
+        impl Default for $name {
+            fn default() -> Self {
+                Self(<$std>::default())
+            }
+        }
+
+        impl From<$val> for $name {
+            fn from(v: $val) -> Self {
+                Self(<$std>::from(v))
+            }
+        }
+
+        impl fmt::Debug for $name {
+            fn fmt(&self, f: &mut fmt::Formatter<'_>) -> fmt::Result {
+                // same output as the standard atomic, without reporting an access
+                fmt::Debug::fmt(&self.0, f)
+            }
+        }
+    };
+}
+
+/// Monitored replacement of `std::sync::atomic::AtomicUsize`.
+#[repr(transparent)]
+pub struct AtomicUsize(sa::AtomicUsize);
+
+shim_common!(
+    AtomicUsize,
+    sa::AtomicUsize,
+    usize,
+    false,
+    |v: usize| v
+);
+
+impl AtomicUsize {
+    #[inline]
+    pub fn fetch_add(&self, val: usize, order: Ordering) -> usize {
+        self.rmw(order, |x| x.fetch_add(val, order))
+    }
+
+    #[inline]
+    pub fn fetch_sub(&self, val: usize, order: Ordering) -> usize {
+        self.rmw(order, |x| x.fetch_sub(val, order))
+    }
+
+    #[inline]
+    pub fn fetch_max(&self, val: usize, order: Ordering) -> usize {
+        self.rmw(order, |x| x.fetch_max(val, order))
+    }
+
+    #[inline]
+    pub fn fetch_min(&self, val: usize, order: Ordering) -> usize {
+        self.rmw(order, |x| x.fetch_min(val, order))
+    }
+}
+
+/// Monitored replacement of `std::sync::atomic::AtomicBool`.
+#[repr(transparent)]
+pub struct AtomicBool(sa::AtomicBool);
+
+shim_common!(
+    AtomicBool,
+    sa::AtomicBool,
+    bool,
+    true,
+    |v: bool| v as usize
+);
